@@ -17,7 +17,7 @@ RULE = (
     "Hypothesis generates MetaModule recipes: nesting depth 0..2 (quick) / 0..4 (thorough) with MetaModules inside embedded projects, embedded "
     "projects of up to 5 modules/level of mixed types (ranges with negative minimum, enums, booleans, unit-dependent), user-controller count n over "
     "{0,1,2,27,95,96} and uniform 0..96, mappings onto generated (module, controller) targets of every controller kind and onto arbitrary u16 pairs, "
-    "labels (any text without NUL) at generated indices < n, value types re-derived or not before saving, values assigned through user controllers "
+    "labels (any text without NUL) at generated indices < n, the count raised and lowered on the same object before it settles at n, labels left on controllers beyond the count, value types re-derived or not before saving, values assigned through user controllers "
     "where the target admits them; both contexts (stand-alone synth / in a project). Oracle: snapshot equality after save/load (embedded project "
     "recursively under the C01 oracle, count, all 96 mappings, labels < n, stored values, attached set = first n), file structure (5+n CVALs, "
     "8(5+n) CMID bytes, label chunks only for indices < n, via independent chunk parsing), second cycle byte-identical. non-trivial = n >= 1 with a "
@@ -29,7 +29,7 @@ ASSUMPTIONS = [
     "user-visible values of user controllers are not claimed, stored values are",
 ]
 REQUIRED_LABELS = {
-    "quick": ["depth_0", "depth_1", "depth_2", "count_0", "count_96", "count_mid", "map_enum", "map_bool", "map_negative_range", "label_set", "ctx_synth", "ctx_project", "user_value_set", "types_rederived", "label_beyond_count"],
+    "quick": ["depth_0", "depth_1", "depth_2", "count_0", "count_96", "count_mid", "map_enum", "map_bool", "map_negative_range", "label_set", "ctx_synth", "ctx_project", "user_value_set", "types_rederived", "label_beyond_count", "count_lowered"],
     "thorough": ["depth_0", "depth_1", "depth_2", "depth_3", "count_0", "count_96", "count_95", "count_27", "count_mid", "map_enum", "map_bool", "map_negative_range", "map_dependent", "label_set", "ctx_synth", "ctx_project", "user_value_set", "types_rederived"],
 }
 INNER_TYPES = ["Amplifier", "Adsr", "Lfo", "Filter", "Generator", "Delay", "MultiSynth", "VorbisPlayer", "Compressor"]
@@ -108,6 +108,8 @@ def meta_spec(draw, depth, in_project):
         "rederive": rederive,
         "user_sets": user_sets if rederive else [],
         "labels_beyond_count": beyond,
+        # the count is raised/lowered a few times on the same object before it settles at n
+        "count_history": draw(st.lists(st.one_of(st.sampled_from([0, 1, 3, 96]), st.integers(0, 96)), max_size=3)),
     }
     return ms
 
@@ -124,6 +126,11 @@ def finish_meta(mod, ms):
     for i, sub in enumerate(ms["payload"]["project"]["modules"], 1):
         if sub["type"] == "MetaModule":
             finish_meta(mod.project.modules[i], sub)
+    hist = ms.get("count_history", [])
+    if hist:
+        for c in hist:
+            mod.user_defined_controllers = c
+        mod.user_defined_controllers = ms["payload"]["count"]
     for i, text in ms.get("labels_beyond_count", []):
         mod.user_defined[i].label = text
     if ms.get("rederive"):
@@ -172,6 +179,11 @@ def labels_of(ms):
         labels.add("user_value_set")
     if ms.get("labels_beyond_count"):
         labels.add("label_beyond_count")
+    h = ms.get("count_history", [])
+    if h:
+        labels.add("count_changed")
+        if max(h) > ms["payload"]["count"]:
+            labels.add("count_lowered")
     return labels
 
 
